@@ -7,7 +7,7 @@
 From Coq Require Import ZArith List Bool.
 Import ListNotations.
 From Cedar Require Import Lang.Value Base.Json Impl.Scanner Impl.Tokenizer Impl.Quote Impl.Parser Impl.PolicyJson Impl.SchemaResolve
-  Impl.SchemaJson Proofs.ScannerFailure Proofs.DecoderTotal Proofs.SchemaResolveProofs Proofs.SchemaJsonProofs.
+  Impl.SchemaJson Impl.SchemaText Proofs.SchemaTextProofs1 Proofs.ScannerFailure Proofs.DecoderTotal Proofs.SchemaResolveProofs Proofs.SchemaJsonProofs.
 
 (* the streaming tokenizer: every reader (any chunking, failing or not), any bytes *)
 Theorem C10_tokenizer_terminates : forall b r fuel,
@@ -37,6 +37,11 @@ Proof. exact resolve_schema_terminates. Qed.
 Theorem C10_schema_json_terminates : forall j, dec_schema j <> DFuel.
 Proof. exact dec_schema_total. Qed.
 
+(* schema text: every byte string *)
+Theorem C10_schema_text_terminates : forall src, parse_schema src <> SFuel.
+Proof. exact parse_schema_total. Qed.
+
+Print Assumptions C10_schema_text_terminates.
 Print Assumptions C10_schema_json_terminates.
 Print Assumptions C10_tokenizer_terminates.
 Print Assumptions C10_parser_terminates.
